@@ -21,6 +21,8 @@ def run(ctx):
     ctx.rule("R12.l", "instantiate=True is inherited whatever the Parameter types are: the superclass loop of __param_inheritance, interpreted abstractly on a superclass Parameter with "
                       "instantiate True / False x the new Parameter's type being or not being related to it, sets param.instantiate iff the ancestor has it (otherwise a subclass that narrows the "
                       "type shares the mutable default between the class and all instances)", floor=1)
+    ctx.rule("R12.n", "param's own write-backs do not turn an inherited default into an instance value: no method of the namespace other than update/_update themselves writes back, through "
+                      "update(), values taken from self_.values() -- which reports the class default for every parameter the instance never set, so the write-back stores it on the instance", floor=1)
     ctx.rule("R12.m", "setter model: Parameter.__set__ interpreted abstractly on every combination (576) of route x constant/readonly x validation outcome x identity x reference mode x watchers x batching agrees with the specification of this property (see checks/setter_model.py)", floor=1)
     ctx.rule("R12.k", "constructor model: Parameters._setup_params (with _instantiate_param) interpreted abstractly on 288 combinations of keywords x reference modes (plain value / reference with a value / reference without a value yet / asynchronous reference) x an unknown keyword: own copy of every instantiate=True default and pinned constants before any keyword is applied (and still there when a keyword assigns nothing), exactly the specified assignments, every reference and only references recorded", floor=1)
     ctx.not_decided += ["order-dependent histories (whether the per-instance copy existed before a class-level change) -- the rules make them irrelevant but the behavioural statement is not executed"]
@@ -174,6 +176,35 @@ def run(ctx):
     else:
         ctx.fail("R12.g", ms, sets[0], "a class-level assignment on a subclass sets the value on the parent's Parameter object (no copy-on-write): the parent class and its other subclasses change too",
                  key="%s::no-copy-on-write" % ms.qualname)
+
+    # ------------------------------------------------------------ R12.n
+    n_wb = 0
+    for g in ctx.repo.all_funcs("param.parameterized"):
+        if g.cls is None or g.cls.name != "Parameters" or g.name in ("update", "_update", "set_param"):
+            continue
+        vals_names = {t.id for st in ast.walk(g.node) if isinstance(st, ast.Assign) and isinstance(st.value, ast.Call) and norm(st.value.func) in ("self_.values",)
+                      for t in st.targets if isinstance(t, ast.Name)}
+        derived = set(vals_names)
+        for _ in range(3):
+            for st in ast.walk(g.node):
+                if isinstance(st, ast.Assign) and any(isinstance(x, ast.Name) and x.id in derived for x in ast.walk(st.value)):
+                    derived |= {t.id for t in st.targets if isinstance(t, ast.Name)}
+        for c in ast.walk(g.node):
+            if isinstance(c, ast.Call) and isinstance(c.func, ast.Attribute) and c.func.attr in ("update", "_update") and norm(c.func.value) == "self_":
+                n_wb += 1
+                gcf = ctx.facts.cfg(g)
+                cn_ = [n for n in gcf.live_nodes() if n.kind == "stmt" and n.ast is not None and any(x is c for x in ast.walk(n.ast))]
+                if cn_ and any(t is True and norm(e) == "self_.self is None" for e, t in gcf.conditions(cn_[0])):
+                    ctx.ok("R12.n", g, c, "class-level branch: there is no instance store to write into")
+                    continue
+                used = sorted({x.id for a in list(c.args) + [k.value for k in c.keywords] for x in ast.walk(a) if isinstance(x, ast.Name) and x.id in derived})
+                if used:
+                    ctx.fail("R12.n", g, c, "`%s` writes back values taken from self_.values() (%s): for a parameter the instance never set that is the class default, and the setter stores it on the "
+                                            "instance -- from then on the instance no longer follows changes of the class default" % (norm(c)[:60], ", ".join(used)),
+                             key="%s::write-back-pins-default" % g.qualname, input="p = P(); p.param.trigger('x'); P.x = 5 -> p.x is still the old default")
+                else:
+                    ctx.ok("R12.n", g, c, "the values written back are new values, not the object's reported state")
+    ctx.require(n_wb >= 3, "fewer than 3 internal update() call sites found in class Parameters (%d)" % n_wb)
 
     # ------------------------------------------------------------ R12.l
     import itertools as _it
